@@ -27,6 +27,8 @@ func main() {
 		err = cmdAuth(os.Args[2:])
 	case "signing":
 		err = cmdSigning(os.Args[2:])
+	case "apiauth":
+		err = cmdAPIAuth(os.Args[2:])
 	default:
 		err = fmt.Errorf("unknown subcommand %q", os.Args[1])
 	}
